@@ -15,7 +15,7 @@ META = {
     "level": "exploration",
     "engine": "vmtable",
     "technique": "TLA+ spec VmBytecode (abstract policy VM, total step relation) model-checked with TLC; every TLC-enumerated program x stack x context x I/O class and every corrupted-module cell replayed into the real Machine/RunState (TABLE binding), outcome compared with the spec's prediction, panic = violation",
-    "text": "TLC enumerates every instruction cell (all Instruction variants x operand classes: targets in range/one past the end/usize::MAX/unresolved, counts 1/2/usize::MAX, limits <= 0, defined/undefined names) from every initial stack of depth 0..2 over representatives of each Value kind, all 2-instruction prefix trees (thorough: from stacks of depth 0..1, and 3-instruction trees from the empty stack), longer programs by seeded simulation, with command context and I/O result class (ok/empty/error/failing iterator) chosen at the first instruction that consults them.  The spec shows at model level that each (state, instruction) has a defined outcome among continue / policy exit / MachineErrorType.  Each behaviour is executed on the real VM step-wise and through run(); the predicted status, value stack, pc, context, locals, I/O log and step count are compared (drift).  Mutated ModuleV0 values (code-map spans at/after the end of the text or inside a character, labels out of range or missing, duplicate/dangling/empty definitions) are loaded with Machine::from_module and entered through run/call_action/call_command_policy/call_seal/call_open.  Decides: no panic.",
+    "text": "TLC enumerates every instruction cell (all Instruction variants x operand classes: targets in range/one past the end/usize::MAX/unresolved, counts 1/2/usize::MAX, limits <= 0, defined/undefined names) from every initial stack of depth 0..2 over representatives of each Value kind, all 2-instruction prefix trees from stacks of depth 0..1 (thorough: also all 3-instruction trees from the empty stack), longer programs by seeded simulation, with command context and I/O result class (ok/empty/error/failing iterator) chosen at the first instruction that consults them.  The spec shows at model level that each (state, instruction) has a defined outcome among continue / policy exit / MachineErrorType.  Each behaviour is executed on the real VM step-wise and through run(); the predicted status, value stack, pc, context, locals, I/O log and step count are compared (drift).  Mutated ModuleV0 values (code-map spans at/after the end of the text or inside a character, labels out of range or missing, duplicate/dangling/empty definitions) are loaded with Machine::from_module and entered through run/call_action/call_command_policy/call_seal/call_open.  Decides: no panic.",
     "note": "Exploration, not proof: programs <= 2 (thorough 3) instructions exhaustively, to 5 by simulation; world of 2 structs/1 fact/1 enum/1 global; stub MachineIO.  Non-terminating programs are cut at the spec's step budget and then stepped 1500 more times for panics only.  Trusted: the stub I/O layer and the engine's value abstraction.",
 }
 
@@ -121,12 +121,14 @@ def run(ctx):
         ctx.cov.update({"evaluations": 1, "distinct_nontrivial": 1, "rule": "replay of one stored case"})
         return
 
-    cfgs = ["MC_VmBytecode_L1.cfg"]
-    cfgs += ["MC_VmBytecode_L2.cfg", "MC_VmBytecode_L3.cfg"] if ctx.thorough else ["MC_VmBytecode_L2q.cfg"]
+    cfgs = ["MC_VmBytecode_L1.cfg", "MC_VmBytecode_L2.cfg"]
+    if ctx.thorough:
+        cfgs.append("MC_VmBytecode_L3.cfg")
     cases, tb, per_cfg = [], None, {}
     for cfg in cfgs:
-        r = ctx.tlc("VmBytecode", cfg, timeout=1800)
-        ctx.require_actions(r, ["Step"])
+        # no -coverage: it costs ~20 s of start-up on this spec; vacuity is checked on the
+        # behaviours themselves (vacuity(): every variant, context and I/O class exercised)
+        r = ctx.tlc("VmBytecode", cfg, timeout=1800, coverage=False)
         tb = tb or tables(r)
         cs = [to_case(b, tb, BUDGET[cfg]) for b in r.replays]
         if not cs:
@@ -137,7 +139,7 @@ def run(ctx):
 
     # depth by seeded simulation: programs of 4-5 instructions (TLC checks every successor of
     # every state on a simulated trace, so `num` traces give a few hundred behaviours each)
-    sim_n = max(1, (400 if ctx.thorough else 24) // ctx.tlc_workers)
+    sim_n = max(1, (1600 if ctx.thorough else 48) // ctx.tlc_workers)
     r = ctx.tlc("VmBytecode", "MC_VmBytecode_Sim.cfg", simulate=sim_n, depth=14, timeout=900,
                 coverage=False)
     sim = {json.dumps(b, sort_keys=True): b for b in r.replays}
